@@ -442,7 +442,6 @@ def drillhole_group_data(
         "groupValue": group_value,
         "multiselect": multiselect,
         "value": value,
-        "optional": optional,
         "enabled": enabled,
         "tooltip": tooltip,
     }
